@@ -1097,8 +1097,10 @@ class Expr:
     @property
     @_cache_in_props
     def is_complex(self):
-        if self.kind in {"symbol", "constant", "select"}:
+        if self.kind in {"symbol", "constant"}:
             return self.operands[1].is_complex
+        elif self.kind == "select":
+            return self.operands[1].is_complex or self.operands[2].is_complex
         elif self.kind in {
             "lt",
             "le",
